@@ -55,7 +55,7 @@ CONSTANTS Node,          \* node ids
           MaxCfgReqs,    \* number of ChangeConfig requests (model bound)
           EdAddPromote, EdAddNonvoter, EdPromote, EdDemote, EdRemove, EdForceRemove,  \* node sets: the user edits a ChangeConfig request may combine
           G_ConfigCommittedFirst, G_OwnTermBeforeConfig, G_PromoteAfterRound, G_NonVoterNoElection, G_StepDownWhenDemoted,
-          G_XferCaughtUp, G_XferBlocksEntries, G_XferSuccessOnHigherTerm, G_CommitMonotone,
+          G_XferCaughtUp, G_XferBlocksEntries, G_XferSuccessOnHigherTerm, G_CommitMonotone, G_ReadAfterCommit,
           FixD4,         \* TRUE = snapshot labelled with the configuration in force at the snapshot index (repaired)
           FixD11,        \* TRUE = a stale log view reports entries in removed segments as not found (repaired)
           FixD3,         \* TRUE = canChangeConfig requires an own-term commit (repaired)
@@ -282,7 +282,7 @@ StoreEntryL(s, e) ==
     THEN IF e.task # 0 THEN [s EXCEPT !.done = Append(@, [task |-> e.task, res |-> "inProgress", pos |-> 0])] ELSE s
     ELSE
     LET s1 == AppendEntry(s, [t |-> s.term, y |-> e.y, v |-> e.v, c |-> e.c])
-        s2 == [s1 EXCEPT !.ldr.neQ = Append(@, [i |-> Last(s1), y |-> e.y, log |-> TRUE, task |-> e.task, v |-> e.v])]
+        s2 == [s1 EXCEPT !.ldr.neQ = Append(@, [i |-> Last(s1), y |-> e.y, log |-> TRUE, task |-> e.task, v |-> e.v, t |-> s.term])]
         s3 == IF e.y = "cfg" THEN LeaderChangeConfig(s2, [index |-> Last(s1), term |-> s.term, nodes |-> e.c]) ELSE s2
         s4 == NotifyFlr(BeginFinishedRounds(s3), e.y = "cfg")
     IN IF s4.ldr.numVoters = 1 /\ s4.ldr.selfVoter THEN OnMajorityCommit(s4) ELSE s4
@@ -292,7 +292,9 @@ StoreEntryL(s, e) ==
 StoreNonLog(s, y, task) ==
     IF (G_XferBlocksEntries /\ s.ldr.xfer.on) \/ ~s.ldr.selfVoter
     THEN [s EXCEPT !.done = Append(@, [task |-> task, res |-> "inProgress", pos |-> 0])]
-    ELSE LET s1 == [s EXCEPT !.ldr.neQ = Append(@, [i |-> Last(s) + 1, y |-> y, log |-> FALSE, task |-> task, v |-> 0])]
+    ELSE IF ~G_ReadAfterCommit /\ y = "read"
+    THEN [s EXCEPT !.fsmQ = Append(@, [kind |-> "dirtyRead", task |-> task])]   \* (guard off: answered without waiting for what is outstanding)
+    ELSE LET s1 == [s EXCEPT !.ldr.neQ = Append(@, [i |-> Last(s) + 1, y |-> y, log |-> FALSE, task |-> task, v |-> 0, t |-> s.term])]
          IN IF ~s1.ldr.neQ[1].log THEN ApplyCommittedL(s1) ELSE s1
 
 DoChangeConfig(s, nodes, task) == StoreEntryL(s, [y |-> "cfg", v |-> 0, c |-> nodes, task |-> task])
@@ -542,7 +544,7 @@ ApplyItems(s, items) ==
     ELSE LET it == Head(items) IN
          IF it.log /\ it.i # s.fsmIdx + 1 THEN [s EXCEPT !.died = "fsm"]
          ELSE LET s1 == IF it.y = "upd" THEN [s EXCEPT !.fsmCmds = Append(@, it.v)] ELSE s
-                  s2 == IF it.log THEN [s1 EXCEPT !.fsmIdx = it.i, !.fsmTerm = s.term] ELSE s1
+                  s2 == IF it.log THEN [s1 EXCEPT !.fsmIdx = it.i, !.fsmTerm = it.t] ELSE s1
                   s3 == IF it.task # 0
                         THEN [s2 EXCEPT !.done = Append(@, IF it.y \in {"read", "dirty"}
                                                            THEN [task |-> it.task, res |-> "ok", pos |-> 0, rd |-> s1.fsmCmds]
@@ -1257,6 +1259,8 @@ Inv_C11 == C11_OnlyVotersCampaign(gh) /\ C11_OnlyVotersLead(gh) /\ C11_PromoteAf
 Inv_C09 == C09_SnapshotCommitted(gh, node) /\ C09_NoViewInvalidation(node) /\ C03_FsmIsCommittedPrefix(gh, node)
 Inv_C12 == C12_LabelOK(gh, node)
 Inv_C17a == C17_LeaderStickiness(gh)
+Inv_C07 == /\ C07_UpdateAtReportedPosition(gh) /\ C07_ReadsReflectAccepted(gh) /\ C07_ReadsOnlyCommitted(gh)
+           /\ C07_AtMostOnce(node) /\ C07_RejectedNeverApplied(gh, node) /\ C07_RealTimeOrder(gh, node)
 Inv_C16 == C16_SuccessMeansSteppedDown(gh) /\ C16_TargetEligible(gh) /\ C16_NoNewEntriesDuringTransfer(gh) /\ C01_ElectionSafety(gh)
 Inv_C19 == C19_Ordered(node) /\ C19_LatestIsNewest(node) /\ C19_Monotone(gh)
 
